@@ -33,6 +33,7 @@ import (
 	"path/filepath"
 	"sort"
 	"strings"
+	"sync"
 	"time"
 
 	. "verifharness/lib"
@@ -45,12 +46,18 @@ func main() { Main("C15", runC15, nil) }
 
 // ---------- tokens ----------
 
-type tokenSpec struct {
+type tokenBase struct {
 	name  string
 	tok   string // "" with absent=false: the empty string is sent
 	send  bool   // false: no signature field at all
 	valid bool   // by construction: signed by the configured key, in time, audience contains the node
-	class string // Coq jwt_result
+	class string // Coq jwt_result: what the verifier of /repo makes of the token
+}
+
+type tokenSpec struct {
+	tokenBase
+	dims      []string // generated tokens: the dimensions that deviate from the baseline
+	generated bool
 }
 
 func mustSign(t *jwt.Token, key interface{}) string {
@@ -91,7 +98,7 @@ func makeTokens(nodeID string, key, other *rsa.PrivateKey) []tokenSpec {
 		flip[mid] = 'A'
 	}
 	none := mustSign(jwt.NewWithClaims(jwt.SigningMethodNone, good), jwt.UnsafeAllowNoneSignatureType)
-	return []tokenSpec{
+	base := []tokenBase{
 		{"absent", "", false, false, "JMalformed"},
 		{"empty", "", true, false, "JMalformed"},
 		{"valid-rs512", valid, true, true, "JValid"},
@@ -119,6 +126,11 @@ func makeTokens(nodeID string, key, other *rsa.PrivateKey) []tokenSpec {
 		{"dots", "..", true, false, "JMalformed"},
 		{"long-garbage", strings.Repeat("QUJD", 3000) + "." + strings.Repeat("e", 500) + ".x", true, false, "JMalformed"},
 	}
+	out := make([]tokenSpec, len(base))
+	for i, b := range base {
+		out[i] = tokenSpec{tokenBase: b}
+	}
+	return out
 }
 
 // ---------- nodes ----------
@@ -134,6 +146,7 @@ type node struct {
 	tcp    int
 	pool   map[string][]*tunit
 	tokens []tokenSpec
+	gen    *tokenGen
 }
 
 var tTarget, tDial, tSnap, tCmd time.Duration
@@ -145,6 +158,7 @@ type harness struct {
 	V, N  *node
 	M     *Daemon
 	fatal string
+	mu    sync.Mutex
 }
 
 func freePort() int {
@@ -235,6 +249,7 @@ func setup(c *Ctx, im *Impl, cf *CaseFile) *harness {
 	Must(M.Start())
 	V.tokens = makeTokens("c15v", key, other)
 	N.tokens = makeTokens("c15n", key, other)
+	V.gen, N.gen = newTokenGen("c15v", key, other), newTokenGen("c15n", key, other)
 	h := &harness{c: c, im: im, cf: cf, V: V, N: N, M: M}
 	// wait for the mesh routes
 	deadline := time.Now().Add(15 * time.Second)
@@ -395,7 +410,7 @@ func (h *harness) submitUnix(n *node, fields map[string]string) (string, error) 
 // so they are made in concurrent batches while no case is in flight.
 func (h *harness) target(n *node, kind string) *tunit {
 	if len(n.pool[kind]) == 0 {
-		h.fill(n, kind, 10)
+		h.fill(n, kind, 16)
 	}
 	p := n.pool[kind]
 	if len(p) == 0 {
@@ -408,7 +423,7 @@ func (h *harness) target(n *node, kind string) *tunit {
 
 func (h *harness) fill(n *node, kind string, count int) {
 	t0 := time.Now()
-	defer func() { tTarget += time.Since(t0) }()
+	defer func() { h.mu.Lock(); tTarget += time.Since(t0); h.mu.Unlock() }()
 	var f map[string]string
 	switch kind {
 	case "verify":
@@ -453,11 +468,15 @@ func (h *harness) fill(n *node, kind string, count int) {
 	for i := 0; i < count; i++ {
 		r := <-ch
 		if r.err != nil {
+			h.mu.Lock()
 			h.fatal = "creating a " + kind + " unit: " + r.err.Error()
+			h.mu.Unlock()
 			continue
 		}
+		h.mu.Lock()
 		h.im.Hist("target-units-created")
 		n.pool[kind] = append(n.pool[kind], &tunit{id: r.id, kind: kind})
+		h.mu.Unlock()
 	}
 	if kind != "verify" && kind != "plain" {
 		time.Sleep(20 * time.Millisecond)
@@ -662,7 +681,18 @@ func (h *harness) runCase(n *node, cs caseSpec, tk tokenSpec) {
 	} else {
 		h.im.Hist("refused-or-no-effect:" + cs.Cmd + ":" + cs.Conn)
 	}
-	h.im.Hist("token:" + tk.name)
+	if tk.generated {
+		h.im.Hist("token:generated")
+		if len(tk.dims) == 0 {
+			h.im.Hist("tokdim:baseline")
+		}
+		for _, d := range tk.dims {
+			h.im.Hist("tokdim:" + d)
+		}
+		h.im.Hist(fmt.Sprintf("token:generated:%d-deviations", len(tk.dims)))
+	} else {
+		h.im.Hist("token:" + tk.name)
+	}
 	h.im.Hist("kind:" + cs.Kind)
 	nontrivial := cs.Conn != "unix" && unitExists
 	key := fmt.Sprintf("%+v", cs)
@@ -690,13 +720,33 @@ func (h *harness) runCase(n *node, cs caseSpec, tk tokenSpec) {
 
 func runC15(c *Ctx) {
 	im := NewImpl("C15", c.Seed, c.Tier)
-	im.Rule = "cases = command x connection kind x deciding work type x token (real JWTs) x node (with / without verification key), core product exhaustively (4 token classes) and the rest sampled from one splitmix64 stream (thorough: the full product); non-trivial = the command arrives over TCP or a mesh stream and addresses an existing unit / a submit; distinct by full case"
+	im.Rule = "cases = command x connection kind x deciding work type x token (real JWTs) x node (with / without verification key): core product exhaustively (4 token classes); generated tokens = baseline, every single and every pair of deviations over the dimensions signing key x algorithm x exp x nbf x iat x aud x iss/sub noise x encoding, plus random full combinations (40 quick / 1500 thorough); 26 hand-made tokens sampled from one splitmix64 stream (thorough: their full product); non-trivial = the command arrives over TCP or a mesh stream and addresses an existing unit / a submit; distinct by full case"
 	cf := &CaseFile{Dir: c.Out, Prop: "C15", Imports: []string{"Model.Sig"}, CaseType: "sig_case", CheckFn: "sig_check", PerShard: 400}
 	if c.Bin == "" {
 		Must(fmt.Errorf("VERIF_BIN not set"))
 	}
 	h := setup(c, im, cf)
 	defer h.teardown()
+	// command units need >= 250 ms each to be reported Running: make the first batches of every
+	// class at the same time
+	{
+		var wg sync.WaitGroup
+		for _, nk := range []struct {
+			n    *node
+			kind string
+			cnt  int
+		}{{h.V, "verify", 24}, {h.V, "plain", 16}, {h.V, "remote-signed", 24}, {h.V, "remote-unsigned", 12},
+			{h.N, "plain", 8}, {h.N, "remote-signed", 8}, {h.N, "remote-unsigned", 8}} {
+			wg.Add(1)
+			go func(n *node, kind string, cnt int) {
+				defer wg.Done()
+				h.fill(n, kind, cnt)
+			}(nk.n, nk.kind, nk.cnt)
+		}
+		t0 := time.Now()
+		wg.Wait()
+		im.Extra["prefill_ms"] = time.Since(t0).Milliseconds()
+	}
 	r := c.Rng
 	conns := []string{"unix", "tcp", "mesh"}
 	cmds := []string{"submit", "cancel", "release", "force-release", "results"}
@@ -766,6 +816,41 @@ func runC15(c *Ctx) {
 			}
 		}
 	}
+	// generated tokens: baseline, every single deviation and every pair of deviations of the
+	// dimensions key x alg x exp x nbf x iat x aud x noise x encoding, each on a verifying work
+	// type over TCP or a mesh stream (now and then on a plain type: unexpected token)
+	genCase := func(n *node, i int, d tokDims) {
+		if h.fatal != "" {
+			return
+		}
+		cmd := cmds[i%len(cmds)]
+		kind := []string{"verify", "remote-signed"}[(i/len(cmds))%2]
+		if !n.keyOK {
+			kind = "remote-signed"
+		}
+		if i%11 == 10 {
+			kind = "plain"
+		}
+		conn := "tcp"
+		if i%4 == 3 {
+			conn = "mesh"
+		}
+		mk(n, cmd, conn, kind, n.gen.make(d))
+	}
+	for i, d := range singlesAndPairs() {
+		genCase(h.V, i, d)
+	}
+	nRandTok := 40
+	if c.Thorough() {
+		nRandTok = 1500
+	}
+	for i := 0; i < nRandTok; i++ {
+		n := h.V
+		if i%10 == 9 {
+			n = h.N
+		}
+		genCase(n, r.Intn(1000), randomDims(r))
+	}
 	// the rest of the product
 	if c.Thorough() {
 		for _, n := range []*node{h.V, h.N} {
@@ -780,7 +865,7 @@ func runC15(c *Ctx) {
 			}
 		}
 	} else {
-		for i := 0; i < 300 && h.fatal == ""; i++ {
+		for i := 0; i < 80 && h.fatal == ""; i++ {
 			n := h.V
 			if r.Chance(20) {
 				n = h.N
